@@ -192,6 +192,7 @@ static void setpaths(const char *dir) {
   snprintf(g_walpath, sizeof(g_walpath), "%s/db-wal", rp);
 }
 
+static iwrc lock_tap(bool before, void *op);
 static struct iwkv_opts mkopts(int crc, int fresh) {
   struct iwkv_opts o = {
     .path = g_dbpath,
@@ -203,7 +204,8 @@ static struct iwkv_opts mkopts(int crc, int fresh) {
       .savepoint_timeout_sec = UINT32_MAX,   // timers off: effects are a function of the history
       .checkpoint_timeout_sec = UINT32_MAX,
       .wal_buffer_sz = (crc & 2) ? 4096 : 0,
-      .checkpoint_buffer_sz = 0
+      .checkpoint_buffer_sz = 0,
+      .wal_lock_interceptor = lock_tap
     }
   };
   return o;
@@ -275,6 +277,8 @@ static int g_bkp_active, g_bkp_writes, g_inj_at, g_inj_from, g_inj_n, g_inj_done
 // 'B' instead of 'b': the injected operations run on a second thread which is released at the same point; the
 // backup thread waits for it (at most 300 ms: the writer may legitimately block until the copy is over)
 static int g_threaded, g_wdone_flag;
+static pthread_t g_bkp_thread;
+static int g_bkp_before_calls;
 static sem_t g_wstart, g_wdone;
 static void exec_op(int i);
 static void* writer_main(void *arg) {
@@ -345,6 +349,7 @@ static void exec_op(int i) {
       sem_init(&g_wstart, 0, 0); sem_init(&g_wdone, 0, 0); g_wdone_flag = 0;
       pthread_create(&wt, 0, writer_main, 0);
     }
+    g_bkp_thread = pthread_self(); g_bkp_before_calls = 0;
     g_bkp_active = 1;
     rc = iwkv_online_backup(kv, &ts, bp);
     g_bkp_active = 0;
@@ -366,24 +371,40 @@ static void exec_op(int i) {
   }
 }
 
+static void inject_now(void) {
+  g_bkp_active = 0;
+  tr("G inject %d\n", g_bkp_writes);
+  if (g_threaded) {
+    struct timespec tsw;
+    clock_gettime(CLOCK_REALTIME, &tsw);
+    tsw.tv_nsec += 300000000L; if (tsw.tv_nsec >= 1000000000L) { tsw.tv_sec++; tsw.tv_nsec -= 1000000000L; }
+    sem_post(&g_wstart);
+    if (!sem_timedwait(&g_wdone, &tsw)) g_wdone_flag = 1;
+  } else {
+    for (int k = 0; k < g_inj_n; ++k) exec_op(g_inj_from + k);
+  }
+  g_inj_done = g_inj_n;
+  g_bkp_active = 1;
+}
+
 static void bkp_write_seen(void) {
   if (!g_bkp_active) return;
   g_bkp_writes++;
   // only while the main file is being copied: later stages hold the exclusive lock
-  if (g_bkp_writes == g_inj_at && !g_inj_done && g_inj_at <= g_bkp_main_chunks) {
-    g_bkp_active = 0;
-    if (g_threaded) {
-      struct timespec tsw;
-      clock_gettime(CLOCK_REALTIME, &tsw);
-      tsw.tv_nsec += 300000000L; if (tsw.tv_nsec >= 1000000000L) { tsw.tv_sec++; tsw.tv_nsec -= 1000000000L; }
-      sem_post(&g_wstart);
-      if (!sem_timedwait(&g_wdone, &tsw)) g_wdone_flag = 1;
-    } else {
-      for (int k = 0; k < g_inj_n; ++k) exec_op(g_inj_from + k);
-    }
-    g_inj_done = g_inj_n;
-    g_bkp_active = 1;
+  if (g_bkp_writes == g_inj_at && !g_inj_done && g_inj_at <= g_bkp_main_chunks) inject_now();
+}
+
+// wal.wal_lock_interceptor: called by every thread that takes the exclusive lock on behalf of the WAL, before
+// (true) and after (false).  iwal_online_backup does so twice: around the stage-2 checkpoint and, when the
+// WAL_COPY1 loop is over, before taking the lock for stage WAL_COPY2.  B0:<n> releases the writer at that second
+// `before` call: the backup is in stage WAL_COPY1 and holds no lock, so a checkpoint made by the writer there
+// keeps the log and appends a reset mark.
+static iwrc lock_tap(bool before, void *op) {
+  (void) op;
+  if (g_bkp_active && before && pthread_equal(pthread_self(), g_bkp_thread)) {
+    if (++g_bkp_before_calls == 2 && g_inj_at == 0 && !g_inj_done) inject_now();
   }
+  return 0;
 }
 
 // flags: 1 = trace every effect, 2 = record a dump after every successful sync/checkpoint/db creation,
@@ -477,7 +498,7 @@ int main(void) {
     if (!strcmp(tv[0], "run") && n >= 6) {
       setpaths(tv[1]);
       pid_t pid = fork();
-      if (pid == 0) child_run(tv[1], atoi(tv[2]), atoi(tv[3]), atoll(tv[4]), atoi(tv[5]), tv + 6, n - 6);
+      if (pid == 0) { alarm(120); child_run(tv[1], atoi(tv[2]), atoi(tv[3]), atoll(tv[4]), atoi(tv[5]), tv + 6, n - 6); }
       int st = 0;
       waitpid(pid, &st, 0);
       if (WIFSIGNALED(st)) printf("run exit=SIG%d\n", WTERMSIG(st)); else printf("run exit=%d\n", WEXITSTATUS(st));
@@ -488,6 +509,7 @@ int main(void) {
       pid_t pid = fork();
       if (pid == 0) {
         close(pf[0]);
+        alarm(20); // a damaged store may send the library into an endless wait: reported as exit=SIG14
         int dn = open("/dev/null", O_WRONLY);
         dup2(dn, 2); // iwlog warnings of recovery carry timestamps
         if (tv[0][0] == 'r') child_rec(tv[1], atoi(tv[2]), atoll(tv[3]), pf[1]); else child_wal(tv[1], atoi(tv[2]), pf[1]);
